@@ -26,25 +26,25 @@ Proof.
   destruct (lget s) eqn:E; simpl; rewrite ?E; reflexivity.
 Qed.
 
-Lemma setitem_fresh_or_not (k : key) v s :
+Lemma setitem_fresh_or_not (k : key) v s : lvalid s ->
   (h <- hasattr_memo ;; when (negb h) (setattr_memo [] ;;; ret tt) ;;; (memo_setitem k v ;;; ret v)) s
   = (Ok v, lput (Some (d_set (dict_of (lget s)) k v)) s).
 Proof.
-  unfold bind, hasattr_memo, when, memo_setitem, bind, getattr_memo, setattr_memo, ret.
+  intros Hv. unfold bind, hasattr_memo, when, memo_setitem, bind, getattr_memo, setattr_memo, ret.
   destruct (lget s) eqn:E; simpl.
   - rewrite E. reflexivity.
-  - rewrite get_put, put_put. reflexivity.
+  - rewrite (get_put _ _ Hv), put_put. reflexivity.
 Qed.
 
-Lemma _add_to_cache_spec n v a kw s :
+Lemma _add_to_cache_spec n v a kw s : lvalid s ->
   py__add_to_cache n v a kw s = (Ok v, lput (Some (d_set (dict_of (lget s)) (KFull n a kw) v)) s).
 Proof. apply setitem_fresh_or_not. Qed.
 
-Lemma add_to_cache_spec n v a kw s :
+Lemma add_to_cache_spec n v a kw s : lvalid s ->
   py_add_to_cache n v a kw s = (Ok v, lput (Some (d_set (dict_of (lget s)) (KFull n a kw) v)) s).
 Proof. apply _add_to_cache_spec. Qed.
 
-Lemma _add_to_cache_ignore_args_spec n v s :
+Lemma _add_to_cache_ignore_args_spec n v s : lvalid s ->
   py__add_to_cache_ignore_args n v s = (Ok v, lput (Some (d_set (dict_of (lget s)) (KName n) v)) s).
 Proof. apply setitem_fresh_or_not. Qed.
 
@@ -105,6 +105,7 @@ Proof. reflexivity. Qed.
    miss -> the method runs (it may itself write to this or other caches), its result is stored under
    (name, args, pickle(kwargs)) in the state the method left behind; a raising method stores nothing *)
 Lemma cached_spec method nm body a kw s :
+  lvalid s -> (forall r s', body a kw s = (r, s') -> lvalid s') ->
   py__cached method nm body a kw s =
   let K := KFull (name_of_opt nm method) a kw in
   match d_get (dict_of (lget s)) K with
@@ -115,13 +116,15 @@ Lemma cached_spec method nm body a kw s :
             end
   end.
 Proof.
+  intros Hv Hb.
   unfold py__cached. cbv zeta. unfold bind at 1. rewrite is_in_cache_spec. unfold pickle_dumps, d_mem.
   destruct (d_get (dict_of (lget s)) (KFull (name_of_opt nm method) a kw)) eqn:E; simpl.
   - rewrite _get_from_cache_spec, E. reflexivity.
-  - unfold bind. destruct (body a kw s) as [[v|e] s']; auto. apply _add_to_cache_spec.
+  - unfold bind. destruct (body a kw s) as [[v|e] s'] eqn:Eb; auto. apply _add_to_cache_spec. eapply Hb; eauto.
 Qed.
 
 Lemma cached_ignore_args_spec method nm body a kw s :
+  lvalid s -> (forall r s', body a kw s = (r, s') -> lvalid s') ->
   py__cached_ignore_args method nm body a kw s =
   let K := KName (name_of_opt nm method) in
   match d_get (dict_of (lget s)) K with
@@ -132,10 +135,11 @@ Lemma cached_ignore_args_spec method nm body a kw s :
             end
   end.
 Proof.
+  intros Hv Hb.
   unfold py__cached_ignore_args. cbv zeta. unfold bind at 1. rewrite is_in_cache_ignore_args_spec. unfold d_mem.
   destruct (d_get (dict_of (lget s)) (KName (name_of_opt nm method))) eqn:E; simpl.
   - rewrite _get_from_cache_ignore_args_spec, E. reflexivity.
-  - unfold bind. destruct (body a kw s) as [[v|e] s']; auto. apply _add_to_cache_ignore_args_spec.
+  - unfold bind. destruct (body a kw s) as [[v|e] s'] eqn:Eb; auto. apply _add_to_cache_ignore_args_spec. eapply Hb; eauto.
 Qed.
 
 Lemma cached_dispatch method nm ig :
